@@ -44,6 +44,9 @@ pub fn outsider_core() -> CryptoCore {
     core_with(&aead::AES_256_GCM, &[0x44; 32], false, 0)
 }
 
+pub fn half_of(core: &CryptoCore) -> bool {
+    core.nonce_half
+}
 pub fn set_seen(core: &mut CryptoCore, slot: usize, seen: [u8; 12]) {
     core.keys[slot].seen_nonce = Nonce(seen);
 }
